@@ -42,7 +42,7 @@ _ELEMS = [0, "cell", 2.5, (1, 2), None]
 
 def sources(src: int, e0: int, e1: int, e2: int, e3: int, v0: int, v1: int, v2: int, v3: int, mut: int) -> bool:
     """
-    pre: 0 <= src < 4
+    pre: 0 <= src < 5
     pre: 0 <= e0 < len(_ELEMS) and 0 <= e1 < len(_ELEMS) and 0 <= e2 < len(_ELEMS) and 0 <= e3 < len(_ELEMS)
     pre: 0 <= mut < 4
     post: _
@@ -74,8 +74,22 @@ def sources(src: int, e0: int, e1: int, e2: int, e3: int, v0: int, v1: int, v2: 
             env.add_cell_component("c", gen)
             want = list(vals)
             # evaluated exactly once per cell, in id order, with that cell's coordinates and the cell table
-            if [c[0] for c in calls] != cells or not all(c[1] is env.cells for c in calls):
+            if [c[0] for c in calls] != cells or not all(list(c[1]['pos']) == cells for c in calls):
                 return hx.end(hx.fail("generator calls", got=[c[0] for c in calls], exp=cells))
+        elif src == 4:                                  # a generator that lazily creates a prerequisite component while it runs
+            hx.reach('nested')
+
+            def gen2(pos, table):
+                if "base" not in env.cells:
+                    env.add_cell_component("base", [100 + i for i in range(n)])
+                for i in range(n):
+                    if pos == cells[i]:
+                        return vals[i]
+            env.add_cell_component("c", gen2)
+            want = list(vals)
+            if "base" not in env.cells or list(env.cells["base"]) != [100 + i for i in range(n)]:
+                return hx.end(hx.fail("a component added while another one was being generated is gone or altered",
+                                      present="base" in env.cells))
         elif src == 3:                                  # the bundled constant generator; the constant may be a sequence
             hx.reach('constant')
             ck = e0 % 4
@@ -105,7 +119,7 @@ def sources(src: int, e0: int, e1: int, e2: int, e3: int, v0: int, v1: int, v2: 
                                                                  isinstance(a, (int, np.integer)) and not isinstance(a, bool) and a == b)
             if not same:
                 return hx.end(hx.fail("cell %d does not hold its source's value" % i, got=repr(a), exp=repr(b),
-                                      source_kind=["callable", "list", "ndarray", "ConstantGenerator"][src]))
+                                      source_kind=["callable", "list", "ndarray", "ConstantGenerator", "nesting callable"][src]))
         if list(env.cells['pos']) != cells:
             return hx.end(hx.fail("adding a component changed the set of cells"))
     return hx.end(True)
@@ -121,7 +135,7 @@ def history(o0: int, o1: int, o2: int, nm0: int, nm1: int, nm2: int) -> bool:
     # set of cells and the other world unchanged; removing an unknown component is rejected
     hx.begin()
     kind, k = hx.P['world'], hx.P['k']
-    names = ["rain", "slope", "soil"]
+    names = ["rain", "rainfall", "soil"]        # (one name is contained in another)
     with _Patched():
         m = Model(logger=NULL_LOGGER)
         envs = [_mk(kind, m)[0], _mk(kind, m)[0]]
@@ -130,6 +144,8 @@ def history(o0: int, o1: int, o2: int, nm0: int, nm1: int, nm2: int) -> bool:
         n = len(cells)
         ref = [{}, {}]
         ops = [o0, o1, o2][:k]
+        if 'ops' in hx.P:                    # targeted history: operation kinds fixed, names chosen by the solver
+            ops = list(hx.P['ops'])
         nms = [nm0, nm1, nm2][:k]
         for step in range(k):
             op, name = ops[step], hx.pick(names, nms[step])
@@ -246,13 +262,15 @@ def obligations(tier):
            Env.LineWorld.__init__, Env.GridWorld.__init__)
     worlds = ["line", "grid", "cube"] if tier == "quick" else ["line", "grid", "cube", "flat_mid", "point"]
     obs = [
-        X("sources", sources, parts=[{"world": w, "src": sk} for w in worlds for sk in (0, 2, 3)] +
+        X("sources", sources, parts=[{"world": w, "src": sk} for w in worlds for sk in (0, 2, 3, 4)] +
           [{"world": w, "src": 1, "mut": mu} for w in worlds for mu in ((0, 2) if tier == "quick" else (0, 1, 2, 3))],
-          labels=("callable", "list", "ndarray", "constant"), labels_for=lambda p: (("callable", "list", "ndarray", "constant")[p["src"]],),
+          labels=("callable", "list", "ndarray", "constant", "nested"), labels_for=lambda p: (("callable", "list", "ndarray", "constant", "nested")[p["src"]],),
           timeout=1200, encoded=enc),
         X("history", history, parts=[{"world": w, "k": k} for w in (("line", "grid") if tier == "quick" else worlds)
                                      for k in ((2,) if tier == "quick" else (2, 3))],
           labels=("added", "removed", "remove_rejected"), timeout=1200, encoded=enc),
+        X("history_targeted", history, parts=[{"world": "line", "k": 3, "ops": [0, 0, 1]}, {"world": "grid", "k": 3, "ops": [0, 2, 1]}],
+          labels=("removed",), timeout=600, encoded=enc, bounds={"history": "add, add, remove with solver-chosen names (one name contains another)"}),
         X("constant_generator", constant_generator, labels=("called",), timeout=120, encoded=(Env.ConstantGenerator.__call__,)),
         X("lookup_direct", lookup_generator, parts=[{"dim": dmn, "mode": "direct"} for dmn in (1, 2, 3)], labels=("called",), timeout=300,
           encoded=(Env.LookupGenerator.__call__,)),
